@@ -259,6 +259,10 @@ func (s *ReplaySource) ChooseRun(step int, cands []verifsim.CandInfo) int {
 type RunOpts struct {
 	Src        verifsim.DecisionSource
 	KeepLabels bool
+	// OnSutPanic: see verifsim.Sim.OnPanic
+	OnSutPanic func(w *World, g *verifsim.G, msg string) bool
+	// FSWriteFault decides the fate of every file write of dtail code (nil: none fail)
+	FSWriteFault func(w *World, g *verifsim.G, path string, n int) (int, error)
 	MaxSteps   int
 	MaxFake    time.Duration
 	Net        *verifsimnet.Profile
@@ -319,6 +323,12 @@ func RunSim(t *testing.T, o RunOpts, driver func(w *World)) (out Outcome) {
 				sim.EnablePreempt(uint64(curSched.PreemptM), curSeed)
 			}
 			w := newWorld(sim)
+			if o.OnSutPanic != nil {
+				sim.OnPanic = func(g *verifsim.G, msg string) bool { return o.OnSutPanic(w, g, msg) }
+			}
+			if o.FSWriteFault != nil {
+				sim.FSWriteFault = func(g *verifsim.G, path string, n int) (int, error) { return o.FSWriteFault(w, g, path, n) }
+			}
 			if o.Net != nil {
 				w.Net = verifsimnet.New(sim, *o.Net)
 				verifsimnet.Install(w.Net)
